@@ -1,4 +1,5 @@
 import SdbModel.Model.Reconciler
+import SdbModel.Model.ReconcilerBatch
 import Driver.Util
 /-! driver suite `rec` (C14, C15, C16): the reconciler under virtual time vs Model.Reconciler -/
 namespace Drv.RecS
@@ -7,6 +8,7 @@ open Sdb Sdb.Rec
 structure S where
   r : R := {}
   oracleOnly : Bool := false
+  batch : Bool := false    -- BatchOperations configured: rounds of Model.ReconcilerBatch
   printed : Nat := 0       -- calls already reported
   deriving Inhabited
 
@@ -20,7 +22,7 @@ def showState (s : S) : S × String :=
   ({ s with printed := s.r.log.length }, str)
 
 def after (s : S) (r : R) : S × String :=
-  let s := { s with r := r.quiesce 256 }
+  let s := { s with r := if s.batch then r.quiesceB 256 else r.quiesce 256 }
   if s.oracleOnly then (s, "-") else showState s
 
 def step (s : S) (ws : List String) : S × String :=
@@ -28,7 +30,8 @@ def step (s : S) (ws : List String) : S × String :=
   | ["cfg", minB, maxB, rs, mode] =>
     match minB.toNat?, maxB.toNat?, rs.toNat? with
     | some a, some b, some c =>
-      after { r := { cfg := { minB := a, maxB := b, roundSize := c } }, oracleOnly := !(mode == "exact" || mode == "exact-set") } { cfg := { minB := a, maxB := b, roundSize := c } }
+      after { r := { cfg := { minB := a, maxB := b, roundSize := c } }, oracleOnly := !mode.startsWith "exact",
+              batch := (mode.splitOn "-batch").length > 1 } { cfg := { minB := a, maxB := b, roundSize := c } }
     | _, _, _ => (s, "bad-op")
   | ["put", id, data] =>
     match id.toNat?, data.toNat? with
@@ -65,7 +68,7 @@ def step (s : S) (ws : List String) : S × String :=
     | _, _, _ => (s, "bad-op")
   | ["advance", ms] =>
     match ms.toNat? with
-    | some ms => after s (s.r.advance ms 256)
+    | some ms => after s (if s.batch then s.r.advanceB ms 256 else s.r.advance ms 256)
     | none => (s, "bad-op")
   | ["obs"] => after s s.r
   | ["final"] => (s, "-")
